@@ -756,5 +756,14 @@ func init() {
 		if c.Args["overwrite"] != "0" {
 			walletOverwrite(c, dir)
 		}
+		// 9. key files whose non-authenticated members (baseAddress, version, timestamp, Path, unknown members, spelling) were
+		//    changed: whatever is accepted yields the entropy and ITS index-0 address, also through a Manager and a re-encryption
+		if c.Args["unauth"] != "0" {
+			walletUnauthFields(c, dir)
+		}
+		// 10. operation sequences on ONE KeyStore object: derivation is a function of (entropy, index), not of the history
+		if c.Args["ksobj"] != "0" {
+			walletKeyStoreSequences(c)
+		}
 	})
 }
